@@ -282,3 +282,55 @@ def shrink(case):  # noqa: F811
         return
     for x in _shrink_uamiv(case):
         yield x
+
+
+# ----------------------------------------------------------------------------- land-use files evaluated in Coq (Model/Landuse.v)
+from harness import landusecheck as LU  # noqa: E402
+
+_lu_prev = dict(gen=gen, impl=impl, coq_term=coq_term, py_check=py_check, nontrivial=nontrivial, shrink=shrink)
+
+
+def gen(rng, n, tier):  # noqa: F811
+    out = _lu_prev['gen'](rng, n, tier)
+    # old-style (fland, optional topo) and new-style (LUCAT11 / LUCAT26 key, optional LAI / TOPO) files; a share with first payload
+    # bytes that are no UTF-8 (the reader decodes them to sniff the style: region 16)
+    for i in range(max(3, n // 15)):
+        c = LU.gen_lu(rng, tier)
+        out.append(dict(kind='lu', content=c, write=True))
+    return out
+
+
+def impl(case):  # noqa: F811
+    return LU.run_lu(case) if LU.is_lu(case) else _lu_prev['impl'](case)
+
+
+def coq_term(case, obs):  # noqa: F811
+    if LU.is_lu(case):
+        return None if 'raises' in obs else LU.lu_term(case, obs)
+    return _lu_prev['coq_term'](case, obs)
+
+
+def py_check(case, obs):  # noqa: F811
+    if LU.is_lu(case):
+        if 'raises' in obs:
+            return dict(s_ok=False, why='harness/impl raised ' + str(obs))
+        why = LU.lu_py_check(case, obs)
+        return dict(s_ok=not why, region=LU.lu_region(case, obs), why='; '.join(why[:3]))
+    return _lu_prev['py_check'](case, obs)
+
+
+def nontrivial(case, obs):  # noqa: F811
+    if LU.is_lu(case):
+        return obs.get('mm', {}).get('status') == 'ok' or case.get('cut') is not None
+    return _lu_prev['nontrivial'](case, obs)
+
+
+def shrink(case):  # noqa: F811
+    return [] if LU.is_lu(case) else _lu_prev['shrink'](case)
+
+
+LEVEL_TEXT += (' LAND USE (Model/Landuse.v, Proofs/LanduseProofs.v; Memmap reader hand-modelled: the style sniff on the first 8 payload bytes with their UTF-8 '
+               'decodability as an abstract boolean carried in every case, the three admissible file sizes, the structured dtype without marker checks): '
+               'C09_landuse_dec_enc; C09_landuse_reader_presents_content (old and new style, decodable first bytes); C09_landuse_undecodable_refuted (the reader '
+               'raises on a valid old-style file whose first two values are no UTF-8: finding landuse-sniff-decode, region 16). The writer (record order repaired by '
+               '58a734f) is modelled as lu_write; former region 22 is a corpus case. Cases: constructor LUD.')
